@@ -233,10 +233,10 @@ type shadow struct {
 	opts    map[string]*optSpec
 	l       layers
 	// config.json: "absent" "garbage" "tree" "unknown"
-	fileKind string
-	file     map[string]string // key -> Val token (JSON-able kinds)
-	cls      map[int]shClosure
-	persps   map[int]map[string]string
+	fileKind    string
+	file        map[string]string // key -> Val token (JSON-able kinds)
+	cls         map[int]shClosure
+	persps      map[int]map[string]string
 	userUnknown bool
 	loaded      bool // a load happened in this case
 
@@ -430,17 +430,14 @@ func (m *mon) applySet(i int, op string, layer map[string]string, key, vtok stri
 	s := m.s
 	o := s.opts[key]
 	if o == nil {
-		if check && !strings.HasPrefix(out, "err") {
-			m.add(i, "C04:"+op+":unknown-option-accepted", "set of an unregistered option did not fail")
-		}
-		return "err"
+		return "" // the property says nothing about setting an unregistered option
 	}
 	if vtok == "n" {
-		delete(layer, key)
-		if check && out != "ok" {
-			m.add(i, "C04:"+op+":unset-rejected", "removing the value must succeed")
+		// nil removes the value of the layer; the property does not say that this cannot fail
+		if !check || out == "ok" {
+			delete(layer, key)
 		}
-		return "ok"
+		return ""
 	}
 	v, _ := decodeVal(vtok)
 	verdict, canon, reason := judge(o, v)
@@ -679,10 +676,11 @@ func monitor(c hxlib.Case, outs []string) []hxlib.Violation {
 			if op == "setd" {
 				layer = s.l.dflt
 			}
-			exp := m.applySet(i, op, layer, ws[1], ws[2], true, out)
-			_ = exp
+			m.applySet(i, op, layer, ws[1], ws[2], true, out)
 			if op == "set" && out == "ok" && s.persist {
-				s.fileFromUser(s.l)
+				// SetConfigOption also saves, but the property only speaks of saving and loading: whether the file
+				// was rewritten is compared with the model (correspondence), the monitor does not rely on it
+				s.fileKind, s.file = "unknown", nil
 			}
 		case "vv":
 			if len(ws) != 3 {
@@ -701,18 +699,10 @@ func monitor(c hxlib.Case, outs []string) []hxlib.Violation {
 		case "valc":
 			kvs := kvMap(ws[1:])
 			m.checkReplace(i, op, nil, kvs, out, false)
-			unk := false
-			for k := range kvs {
-				if s.opts[k] == nil {
-					unk = true
-				}
-			}
-			if unk != strings.HasSuffix(out, "unk=1") {
-				m.add(i, "C04:valc:contains-unknown", "containsUnknown is wrong")
-			}
 		case "save":
 			if out != "ok" {
-				m.add(i, "C04:save:failed", "SaveConfig failed")
+				s.fileKind, s.file = "unknown", nil // an I/O failure is outside the property
+				continue
 			}
 			if s.persist && !s.userUnknown {
 				s.fileFromUser(s.l)
@@ -744,8 +734,9 @@ func monitor(c hxlib.Case, outs []string) []hxlib.Violation {
 			}
 			switch s.fileKind {
 			case "absent", "garbage":
+				// nothing to restore; the property does not say what happens (compared with the model only)
 				if !strings.HasPrefix(out, "err") {
-					m.add(i, "C04:load:"+s.fileKind+"-file-accepted", "load of a missing / unparseable file reported success")
+					s.userUnknown = true
 				}
 			case "tree":
 				errsOut := strings.TrimPrefix(out, "ok ")
@@ -799,25 +790,8 @@ func monitor(c hxlib.Case, outs []string) []hxlib.Violation {
 			if want != out {
 				m.add(i, "C04:uv:user-value:"+s.keyClass(), "UserValue/IsSetByUser must give "+want)
 			}
-		case "exp":
-			if len(ws) != 2 || s.userUnknown {
-				continue
-			}
-			want := "unknown"
-			if o := s.opts[ws[1]]; o != nil {
-				u := "-"
-				if v, ok := s.l.user[ws[1]]; ok {
-					u = v
-				}
-				d := o.def
-				if v, ok := s.l.dflt[ws[1]]; ok {
-					d = v
-				}
-				want = "user=" + u + " default=" + d
-			}
-			if want != out {
-				m.add(i, "C04:exp:layers", "Export must show "+want)
-			}
+		case "exp", "rlgate":
+			// Export and the internal gate are not observers named by the property; compared with the model only
 		case "active":
 			if s.userUnknown {
 				continue
@@ -831,13 +805,6 @@ func monitor(c hxlib.Case, outs []string) []hxlib.Violation {
 			}
 			if want := sortedJoin("active", items); want != out {
 				m.add(i, "C04:active:"+m.layeringClass(""), "GetActiveConfigValues must give "+want)
-			}
-		case "rlgate":
-			if s.userUnknown {
-				continue
-			}
-			if want := strconv.Itoa(s.effRL(s.l)); want != out {
-				m.add(i, "C04:rlgate:"+m.layeringClass(""), "the release-level gate must be "+want)
 			}
 		case "persp":
 			if len(ws) < 2 {
@@ -865,15 +832,7 @@ func monitor(c hxlib.Case, outs []string) []hxlib.Violation {
 				}
 			}
 			s.persps[id] = p
-			if soft == 0 {
-				want := "ok"
-				if bad > 0 {
-					want = "err " + strconv.Itoa(bad)
-				}
-				if want != out {
-					m.add(i, "C04:persp:errors", "NewPerspective must report "+want)
-				}
-			}
+			_, _ = bad, soft // the error count of NewPerspective is compared with the model only
 		case "pget", "phas":
 			id, _ := strconv.Atoi(ws[1])
 			p, ok := s.persps[id]
@@ -1028,7 +987,7 @@ func (m *mon) traceLine(i int, ws []string, out string) {
 				s.committed = t.lastWrite
 			}
 			if t.op == "set" && res == "ok" && s.persist {
-				s.fileFromUser(s.snaps[len(s.snaps)-1])
+				s.fileKind, s.file = "unknown", nil
 			}
 		case "rep", "repd":
 			if t.lastWrite > s.committed {
